@@ -3,19 +3,23 @@
 # Re-runs the quick check of every kept seeded change against a scratch
 # worktree of /repo with the patch applied (CRDSIM_REPO), so /repo itself is
 # never touched. Prints one line per change: caught / MISSED / exit 2.
-cd /verif || exit 2
+# a snapshot of /verif runs the checks, so that work going on in /verif
+# (edits, rebuilds of the driver) cannot disturb a long regression
+snap=$(mktemp -d /tmp/verif-snap-XXXX)
+rsync -a --exclude .git --exclude evidence --exclude 'bin/crdsim.new.*' /verif/ "$snap"/ || exit 2
+cd "$snap" || exit 2
 # evidence and replay files of runs against changed trees do not belong in /verif
 export CRDSIM_OUT=$(mktemp -d /tmp/crdsim-out-XXXX)
 pat=${1:-*}
 wt=$(mktemp -d /tmp/regress-XXXX)
 git -C /repo worktree add --detach -q "$wt" HEAD || exit 2
-trap 'git -C /repo worktree remove --force "$wt" 2>/dev/null; rm -rf "$wt"' EXIT
+trap 'git -C /repo worktree remove --force "$wt" 2>/dev/null; rm -rf "$wt" "$snap" "$CRDSIM_OUT"' EXIT
 for d in seeded/$pat/; do
   id=$(basename "$d")
   prop=$(python3 -c "import json;print(json.load(open('$d/meta.json'))['property'])")
   also=$(python3 -c "import json;print(' '.join(json.load(open('$d/meta.json')).get('also_check',[])))")
   git -C "$wt" checkout -q -- . && git -C "$wt" clean -fdq
-  if ! git -C "$wt" apply "/verif/$d/patch.diff" 2>/dev/null; then echo "$id: PATCH DOES NOT APPLY"; continue; fi
+  if ! git -C "$wt" apply "$snap/$d/patch.diff" 2>/dev/null; then echo "$id: PATCH DOES NOT APPLY"; continue; fi
   res=""; sigs=""
   for p in $prop $also; do
     CRDSIM_REPO="$wt" VERIF_SEED=${VERIF_SEED:-1} ./bin/check "$p" quick > /tmp/regress.$id.$p.log 2>&1
